@@ -319,6 +319,9 @@ def generate(rng, n, tier):
                 target = rng.choice([1.0, 2.0, 0.5, 4.0, 0.0, 9.0]) if t != "with_mean" else _val(rng)
             if t == "with_variance" and r >= 0.41 and cur and rng.random() < 0.6:
                 target = cur * rng.choice([4.0, 0.25, 9.0, 2.25])      # rational scale
+            if t == "with_variance" and len(set(x)) > 1 and rng.random() < 0.1:
+                x = [v * 2.0 ** -34 for v in x]                          # entries of size 1e-10: a variance of 1e-20 is small, not zero
+                target = rng.choice([1.0, 2.0, 4.0])
             c.update(target=target, x=x)
         _add_via(rng, c)
         yield c
